@@ -32,6 +32,11 @@ def unit_closure(units):
     return seen
 
 
+def unit_features(u):
+    m = re.search(r"^//@unit.*\bfeatures=(\S+)", vunit.read_template(u), re.M)
+    return m.group(1) if m else ""
+
+
 def needs_rlibs(units):
     for u in units:
         m = re.search(r"^//@unit.*externs=(\S+)", vunit.read_template(u), re.M)
@@ -62,12 +67,15 @@ def run_property(pid, tier, seed):
     ext = None
     build_s = 0
     if units and needs_rlibs(units):
-        ext, err = vunit.build_rlibs()
-        if ext is None:
-            print(f"UNDECIDED property={pid} reason=repository does not build with the verifier toolchain")
-            print(err[-3000:])
-            return 2, None
-        build_s = ext["_build_s"]
+        ext = {}
+        for feat in sorted(set(unit_features(u) for u in units)):
+            e, err = vunit.build_rlibs(features=feat)
+            if e is None:
+                print(f"UNDECIDED property={pid} reason=repository does not build with the verifier toolchain (features='{feat}')")
+                print(err[-3000:])
+                return 2, None
+            ext[feat] = e
+            build_s += e["_build_s"]
     results = {}
     with cf.ThreadPoolExecutor(max_workers=6) as ex:
         futs = {u: ex.submit(driver.run_unit, u, ext, tier, seed) for u in units}
@@ -232,10 +240,13 @@ def run_property(pid, tier, seed):
 def rebaseline(units):
     ext = None
     if needs_rlibs(units):
-        ext, err = vunit.build_rlibs()
-        if ext is None:
-            print(err)
-            return 2
+        ext = {}
+        for feat in sorted(set(unit_features(u) for u in units)):
+            e, err = vunit.build_rlibs(features=feat)
+            if e is None:
+                print(err)
+                return 2
+            ext[feat] = e
     for u in units:
         r = driver.run_unit(u, ext)
         real_failed = [f for f in r.failed if "__finding_" not in f]
